@@ -188,7 +188,7 @@ func c19Scenarios(tier string) []c19Scenario {
 	as := []string{"1", "2"}
 	origins := []string{"long", "stale", "swr"}
 	// one scenario per (origin kind, pair of Vary specs): both variants, both validation answers, plus invalidation
-	varyPairs := [][2]string{{"X-A", "*"}, {"X-A", ""}, {"X-A", "X-B"}, {"*", ""}, {"X-A", "X-A"}, {"X-B, X-A", "X-A"}}
+	varyPairs := [][2]string{{"X-A", "*"}, {"X-A", ""}, {"X-A", "X-B"}, {"*", ""}, {"X-A", "X-A"}, {"X-B, X-A", "X-A"}, {"X-A, *", "X-A, *"}, {"X-A, *", "X-A"}}
 	for _, og := range origins {
 		for _, vp := range varyPairs {
 			var evs []c19Ev
